@@ -1656,7 +1656,7 @@ pub fn channels() -> Vec<Channel> {
         Channel { name: "kkt.solve", tol: Tol::Exact, run: run_kkt_solve, oracle: Some(oracle_kkt_solve), modelled: true,
             rust_fn: "DefaultKKTSystem::solve (assembly around the linear solver) + _csc_quad_form", lean: "KktSystem.solveAssemble / C06.reduced_solve_is_newton" },
         Channel { name: "meta.variants", tol: Tol::Exact, run: run_meta_variants, oracle: Some(oracle_meta), modelled: false,
-            rust_fn: "DefaultSolver::new + solve over equivalent formulations/settings", lean: "C05.weak_duality_slack_tol_all_cones / objectives_agree_within_slack / contradictory_verdicts_{pinf,dinf}_slack / map_back_sound (soundness of the pair oracle, all seven cone kinds)" },
+            rust_fn: "DefaultSolver::new + solve over equivalent formulations/settings (incl. direct_solve_method auto / faer with 1-4 threads: AutoDirectLDLSolver::new -> ldl_auto_select (amd_order), FaerDirectLDLSolver::new -> to_faer, sort_csc_columns_with_map; the external backends are not modelled: pair oracle only)", lean: "C05.weak_duality_slack_tol_all_cones / objectives_agree_within_slack / contradictory_verdicts_{pinf,dinf}_slack / map_back_sound (soundness of the pair oracle, all seven cone kinds)" },
         Channel { name: "meta.neginf", tol: Tol::Exact, run: run_meta_neginf, oracle: Some(oracle_meta), modelled: false,
             rust_fn: "DefaultSolver::new + solve: presolve / equilibration / cone split toggled on a box with one lower bound ≥ 1e20", lean: "C05.same_collapsed_same_solver (split/merge) ; C09 drop criterion" },
         Channel { name: "meta.repeat", tol: Tol::Exact, run: run_meta_repeat, oracle: Some(oracle_meta), modelled: false,
